@@ -791,6 +791,7 @@ func TestC01(t *testing.T) {
 		}
 		c01Verify(t, w, mut, rapid.SampledFrom(levels[:3]).Draw(t, "level"), "", "random-mutation")
 	})
+	c01LongHistories(t)
 }
 
 func init() {
